@@ -21,7 +21,7 @@ CHECKS = {
    ref="DESIGN.md section 4, C04"),
  "C03": dict(level="proof",
    text="Next is proved to select, in every state, the first rule in declared order that matches the whole remaining input (loop invariant + exit assertions: no earlier rule is Return or matches), to treat Return by popping exactly one state at the same offset (or to stop at the root), ActionPush/ActionPop are proved to push exactly {state, groups} / pop exactly the top and to reject empty matches; getPattern returns the compiled pattern or the back-reference expansion; NewSimple is proved to build exactly {\"Root\": rules in order}.",
-   note=TRUST + "Regexp matching itself (re_matches, re_end) is uninterpreted/trusted; BackrefRegex has an assumed contract here. New is proved for anchoring and complete include expansion; its exact table (splice order), symbol numbering and ignore flags are covered by the bounded stand-in reported in the same evidence file (bounded, not proof).",
+   note=TRUST + "Regexp matching itself (re_matches, re_end) is uninterpreted/trusted; BackrefRegex has an assumed contract here. New is proved for anchoring and complete include expansion; every rule is proved to get a token type below EOF (so Next returns the EOF type only at the end of the input); its exact table (splice order), distinct numbers for distinct names and ignore flags are covered by the bounded stand-in reported in the same evidence file (bounded, not proof).",
    ref="DESIGN.md section 4, C03"),
 }
 
